@@ -15,7 +15,7 @@ import GoblVerif.Proofs.C14nEncoding
 import GoblVerif.Proofs.C14nDigits
 
 namespace GoblVerif.C14nSrc
-open GoblVerif GoblVerif.C14n GoblVerif.Generated GoblVerif.GoBytes GoblVerif.Proofs.C14n GoblVerif.Spec.C07
+open GoblVerif GoblVerif.C14n GoblVerif.Generated GoblVerif.GoBytes GoblVerif.Proofs.C14n GoblVerif.Spec.C07 GoblVerif.GoSem
 
 /-- what is observable of a Go result `([]byte, error)`: the bytes when the error is nil -/
 def obs (p : Bytes × Err) : Option Bytes := if p.2.isSome then none else some p.1
@@ -521,5 +521,227 @@ theorem fltText_ascii (n : Bool) (ds : List Nat) (e : Int) (hw : wfDigits ds = t
         simp at this; omega
     · omega
     · exact formatInt_ascii e c hc
+
+/-! ## encodeString: the byte loop against the code-point model -/
+
+abbrev EncSt := Option (Bytes × Err) × Bytes × Int × Int
+
+/-- the bytes written after the backslash by the `switch b` of encodeString -/
+def escBytes (b : Nat) : Bytes :=
+  if b = 92 ∨ b = 34 then [b]
+  else if b = 10 then [110]
+  else if b = 13 then [114]
+  else if b = 9 then [116]
+  else if b = 12 then [102]
+  else if b = 8 then [98]
+  else [117, 48, 48] ++ [byteAt C14nSrc.hex (b >>> 4)] ++ [byteAt C14nSrc.hex (b &&& 15)]
+
+/-- one round of the loop of encodeString, compact form (Props shows the regenerated body equal to it) -/
+def encStep (s : Bytes) (st : EncSt) : ForInStep EncSt :=
+  let i := st.2.2.2
+  let start := st.2.2.1
+  let buf := st.2.1
+  if ¬ i < (s.length : Int) then .done (none, buf, start, i)
+  else
+    let b := byteAt s i.toNat
+    if b < 128 then
+      if C14nSrc.safeSet[b]! = true then .yield (none, buf, start, i + 1)
+      else .yield (none, (if start < i then buf ++ slice s start.toNat i.toNat else buf) ++ [92] ++ escBytes b, i + 1, i + 1)
+    else
+      let d := decodeRune (List.drop i.toNat s)
+      if d.1 = 65533 ∧ d.2 = 1 then .done (some ([], GoStr.errNew "json: unsupported value"), buf, start, i)
+      else .yield (none, buf, start, i + d.2)
+
+theorem forFuel_congr {β : Type} (g g' : β → ForInStep β) (h : ∀ b, g b = g' b) (n : Nat) (b : β) :
+    forFuel g n b = forFuel g' n b := by
+  have : g = g' := funext h
+  rw [this]
+
+theorem byteAt_at (pre post : Bytes) (x : Nat) : byteAt (pre ++ x :: post) pre.length = x := by
+  simp [byteAt]
+
+theorem slice_extend (pre mid post : Bytes) (start : Nat) (h : start ≤ pre.length) :
+    slice (pre ++ mid ++ post) start (pre.length + mid.length) = slice (pre ++ mid ++ post) start pre.length ++ mid := by
+  unfold slice
+  have e1 : List.take (pre.length + mid.length) (pre ++ mid ++ post) = pre ++ mid := by
+    rw [show pre.length + mid.length = (pre ++ mid).length by simp, List.take_left']
+    rfl
+  have e2 : List.take pre.length (pre ++ mid ++ post) = pre := by
+    rw [List.append_assoc, List.take_left']; rfl
+  rw [e1, e2, List.drop_append_of_le_length h]
+
+theorem slice_empty (l : Bytes) (i : Nat) : slice l i i = [] := by
+  unfold slice
+  rw [List.drop_eq_nil_iff]; simp; omega
+
+theorem slice_full (l : Bytes) (start : Nat) : slice l start l.length = List.drop start l := by
+  unfold slice; simp
+
+/-- the switch of encodeString is the model's escape, which is ASCII; the two extracted safeSets agree -/
+theorem esc_table : ∀ c, c < 128 →
+    (escBytes c = escapeAscii c ∧ (∀ x ∈ escapeAscii c, x < 128) ∧ C14nSrc.safeSet[c]! = C14n.safe c) := by
+  decide +kernel
+
+theorem utf8_length_pos (c : Nat) : 0 < (utf8 c).length := by
+  unfold utf8; repeat' split
+  all_goals simp
+
+/-- the first byte of the encoding of a non-ASCII character is not ASCII -/
+theorem utf8_lead (c : Nat) (h : 128 ≤ c) (post : Bytes) : 128 ≤ byteAt (utf8 c ++ post) 0 := by
+  unfold utf8
+  repeat' split
+  all_goals simp [byteAt]
+  all_goals omega
+
+/-- utf8.DecodeRuneInString reads back what utf8 wrote for a non-ASCII scalar value -/
+theorem decodeRune_utf8 (c : Nat) (h : 128 ≤ c) (hs : isScalar c = true) (post : Bytes) :
+    decodeRune (utf8 c ++ post) = ((c : Int), ((utf8 c).length : Int)) := by
+  simp only [isScalar, Bool.and_eq_true, decide_eq_true_eq, Bool.not_eq_true', Bool.and_eq_false_iff,
+    decide_eq_false_iff_not] at hs
+  unfold utf8
+  have h0 : ¬ c < 0x80 := by omega
+  simp only [h0, if_false]
+  by_cases h1 : c < 0x800
+  · simp only [h1, if_true, List.cons_append, List.nil_append, decodeRune, GoBytes.isCont, decide_eq_true_eq]
+    have a1 : ¬ (0xC0 + c / 64 < 0x80) := by omega
+    have a2 : 0xC2 ≤ 0xC0 + c / 64 ∧ 0xC0 + c / 64 ≤ 0xDF := by omega
+    have a3 : 0x80 ≤ 0x80 + c % 64 ∧ 0x80 + c % 64 ≤ 0xBF := by omega
+    simp only [a1, a2, a3, if_false, if_true, and_self, decide_true, List.length_cons, List.length_nil]
+    refine Prod.ext ?_ ?_ <;> simp <;> omega
+  · simp only [h1, if_false]
+    by_cases h2 : c < 0x10000
+    · simp only [h2, if_true, List.cons_append, List.nil_append, decodeRune, GoBytes.isCont, decide_eq_true_eq]
+      have a1 : ¬ (0xE0 + c / 4096 < 0x80) := by omega
+      have a1' : ¬ (0xC2 ≤ 0xE0 + c / 4096 ∧ 0xE0 + c / 4096 ≤ 0xDF) := by omega
+      have a2 : 0xE0 ≤ 0xE0 + c / 4096 ∧ 0xE0 + c / 4096 ≤ 0xEF := by omega
+      have a3 : (if 0xE0 + c / 4096 = 0xE0 then 0xA0 else 0x80) ≤ 0x80 + c / 64 % 64 ∧
+          0x80 + c / 64 % 64 ≤ (if 0xE0 + c / 4096 = 0xED then 0x9F else 0xBF) ∧
+          (0x80 ≤ 0x80 + c % 64 ∧ 0x80 + c % 64 ≤ 0xBF) := by
+        refine ⟨?_, ?_, by omega⟩
+        · split <;> omega
+        · split <;> omega
+      simp only [a1, a1', a2, a3, if_false, if_true, and_self, decide_true, List.length_cons, List.length_nil]
+      refine Prod.ext ?_ ?_ <;> simp <;> omega
+    · simp only [h2, if_false, List.cons_append, List.nil_append, decodeRune, GoBytes.isCont, decide_eq_true_eq]
+      have a1 : ¬ (0xF0 + c / 262144 < 0x80) := by omega
+      have a1' : ¬ (0xC2 ≤ 0xF0 + c / 262144 ∧ 0xF0 + c / 262144 ≤ 0xDF) := by omega
+      have a1'' : ¬ (0xE0 ≤ 0xF0 + c / 262144 ∧ 0xF0 + c / 262144 ≤ 0xEF) := by omega
+      have a2 : 0xF0 ≤ 0xF0 + c / 262144 ∧ 0xF0 + c / 262144 ≤ 0xF4 := by omega
+      have a3 : (if 0xF0 + c / 262144 = 0xF0 then 0x90 else 0x80) ≤ 0x80 + c / 4096 % 64 ∧
+          0x80 + c / 4096 % 64 ≤ (if 0xF0 + c / 262144 = 0xF4 then 0x8F else 0xBF) ∧
+          (0x80 ≤ 0x80 + c / 64 % 64 ∧ 0x80 + c / 64 % 64 ≤ 0xBF) ∧ (0x80 ≤ 0x80 + c % 64 ∧ 0x80 + c % 64 ≤ 0xBF) := by
+        refine ⟨?_, ?_, by omega, by omega⟩
+        · split <;> omega
+        · split <;> omega
+      simp only [a1, a1', a1'', a2, a3, if_false, if_true, and_self, decide_true, List.length_cons, List.length_nil]
+      refine Prod.ext ?_ ?_ <;> simp <;> omega
+
+theorem byteAt_append_right (pre l : Bytes) : byteAt (pre ++ l) pre.length = byteAt l 0 := by
+  cases l with
+  | nil => simp [byteAt]
+  | cons x r => simp [byteAt]
+
+theorem utf8_length_ge2 (c : Nat) (h : 128 ≤ c) : 2 ≤ (utf8 c).length := by
+  unfold utf8; repeat' split
+  all_goals simp
+  all_goals omega
+
+theorem utf8s_snoc (done : Str) (c : Nat) : utf8s (done ++ [c]) = utf8s done ++ utf8 c := by
+  rw [utf8s_append, utf8s_cons]; simp [utf8s]
+
+/-- the loop of encodeString from a rune boundary: with the bytes `buf ++ s[start:i]` behind it
+    (`buf` written, `s[start:i]` pending), it ends at `len(s)` having produced them followed by
+    the UTF-8 of the model's text for the remaining code points -/
+theorem enc_loop (B : Bytes) : ∀ (rest done : Str) (buf : Bytes) (start fuel : Nat),
+    B = utf8s done ++ utf8s rest → start ≤ (utf8s done).length → rest.length ≤ fuel → rest.all isScalar = true →
+    ∃ out buf' start', encodeRunes rest = some out ∧
+      forFuel (encStep B) fuel (none, buf, (start : Int), ((utf8s done).length : Int)) =
+        (none, buf', ((start' : Nat) : Int), ((B.length : Nat) : Int)) ∧
+      buf' ++ List.drop start' B = buf ++ slice B start (utf8s done).length ++ utf8s out
+  | [], done, buf, start, fuel, hB, hst, _, _ => by
+    have hlen : B.length = (utf8s done).length := by rw [hB]; simp [utf8s]
+    refine ⟨[], buf, start, rfl, ?_, ?_⟩
+    · cases fuel with
+      | zero => simp [forFuel, hlen]
+      | succ f => simp [forFuel, encStep, hlen]
+    · rw [← hlen, slice_full]; simp [utf8s]
+  | c :: cs, done, buf, start, fuel, hB, hst, hf, hsc => by
+    obtain ⟨f, rfl⟩ : ∃ f, fuel = f + 1 := ⟨fuel - 1, by simp at hf; omega⟩
+    have hsc' : isScalar c = true ∧ cs.all isScalar = true := by simpa using hsc
+    have hB' : B = utf8s done ++ utf8 c ++ utf8s cs := by rw [hB, utf8s_cons, List.append_assoc]
+    have hpos := utf8_length_pos c
+    have hlt : ((utf8s done).length : Int) < (B.length : Int) := by
+      rw [hB']; simp only [List.length_append]; omega
+    have hB2 : B = utf8s (done ++ [c]) ++ utf8s cs := by rw [utf8s_snoc, hB']
+    have hlen2 : (utf8s (done ++ [c])).length = (utf8s done).length + (utf8 c).length := by
+      rw [utf8s_snoc]; simp
+    have hsl := slice_extend (utf8s done) (utf8 c) (utf8s cs) start hst
+    rw [← hB'] at hsl
+    rw [forFuel]
+    by_cases hc : c < 128
+    · -- ASCII
+      have hu : utf8 c = [c] := utf8_ascii c hc
+      obtain ⟨he1, he2, he3⟩ := esc_table c hc
+      have hb : byteAt B (utf8s done).length = c := by
+        rw [hB', hu]; simpa using byteAt_at (utf8s done) (utf8s cs) c
+      rw [hu] at hlen2 hsl
+      by_cases hsafe : C14n.safe c = true
+      · have hstep : encStep B (none, buf, (start : Int), ((utf8s done).length : Int)) =
+            .yield (none, buf, (start : Int), (((utf8s (done ++ [c])).length : Nat) : Int)) := by
+          simp only [encStep, hlt, not_true_eq_false, if_false, Int.toNat_natCast, hb, hc, if_true, he3, hsafe, hlen2]
+          simp
+        rw [hstep]
+        obtain ⟨out, buf', start', h1, h2, h3⟩ := enc_loop B cs (done ++ [c]) buf start f hB2 (by omega) (by simp at hf; omega) hsc'.2
+        refine ⟨c :: out, buf', start', ?_, h2, ?_⟩
+        · simp [encodeRunes, runeSelf_eq, hc, hsafe, h1]
+        · rw [h3, hlen2, hsl, utf8s_cons, hu]; simp
+      · have hsafe' : ¬ (C14n.safe c = true) := hsafe
+        have hbuf : (if (start : Int) < ((utf8s done).length : Int) then buf ++ slice B start (utf8s done).length else buf) =
+            buf ++ slice B start (utf8s done).length := by
+          split
+          · rfl
+          · have : start = (utf8s done).length := by omega
+            rw [this, slice_empty]; simp
+        have hstep : encStep B (none, buf, (start : Int), ((utf8s done).length : Int)) =
+            .yield (none, buf ++ slice B start (utf8s done).length ++ [92] ++ escapeAscii c,
+              (((utf8s (done ++ [c])).length : Nat) : Int), (((utf8s (done ++ [c])).length : Nat) : Int)) := by
+          simp only [encStep, hlt, not_true_eq_false, if_false, Int.toNat_natCast, hb, hc, if_true, he3, hsafe',
+            Bool.false_eq_true, hbuf, he1, hlen2]
+          simp
+        rw [hstep]
+        obtain ⟨out, buf', start', h1, h2, h3⟩ := enc_loop B cs (done ++ [c])
+          (buf ++ slice B start (utf8s done).length ++ [92] ++ escapeAscii c) (utf8s (done ++ [c])).length f hB2
+          (Nat.le_refl _) (by simp at hf; omega) hsc'.2
+        refine ⟨0x5C :: (escapeAscii c ++ out), buf', start', ?_, h2, ?_⟩
+        · simp [encodeRunes, runeSelf_eq, hc, hsafe', h1]
+        · rw [h3, slice_empty, utf8s_cons, utf8_ascii 0x5C (by omega), utf8s_append, utf8s_ascii _ he2]; simp
+    · -- a non-ASCII scalar value
+      have hc' : 128 ≤ c := by omega
+      have hb : ¬ (byteAt B (utf8s done).length < 128) := by
+        rw [hB', List.append_assoc, byteAt_append_right]
+        have := utf8_lead c hc' (utf8s cs); omega
+      have hdrop : List.drop (utf8s done).length B = utf8 c ++ utf8s cs := by
+        rw [hB', List.append_assoc, List.drop_left']; rfl
+      have hdec := decodeRune_utf8 c hc' hsc'.1 (utf8s cs)
+      have h2 := utf8_length_ge2 c hc'
+      have hstep : encStep B (none, buf, (start : Int), ((utf8s done).length : Int)) =
+          .yield (none, buf, (start : Int), (((utf8s (done ++ [c])).length : Nat) : Int)) := by
+        have hne : ¬ (((c : Nat) : Int) = 65533 ∧ (((utf8 c).length : Nat) : Int) = 1) := by omega
+        simp only [encStep, hlt, not_true_eq_false, if_false, Int.toNat_natCast, hb, hdrop, hdec, hne, hlen2]
+        simp
+      rw [hstep]
+      obtain ⟨out, buf', start', h1, h2', h3⟩ := enc_loop B cs (done ++ [c]) buf start f hB2 (by omega) (by simp at hf; omega) hsc'.2
+      refine ⟨c :: out, buf', start', ?_, h2', ?_⟩
+      · have hns : (!isScalar c) = false := by simp [hsc'.1]
+        simp [encodeRunes, runeSelf_eq, hc, hns, h1]
+      · rw [h3, hlen2, hsl, utf8s_cons]; simp
+
+theorem utf8s_length_ge : ∀ s : Str, s.length ≤ (utf8s s).length
+  | [] => by simp [utf8s]
+  | c :: cs => by
+    rw [utf8s_cons]
+    have := utf8s_length_ge cs
+    have := utf8_length_pos c
+    simp only [List.length_cons, List.length_append]; omega
 
 end GoblVerif.C14nSrc
